@@ -119,6 +119,9 @@ def run_native(unit, adapter, inputs):
         m = re.match(r'//\s*SOURCES:\s*(.*)', ln)
         if m:
             extra += ['/repo/src/' + s for s in m.group(1).split()]
+        m = re.match(r'//\s*CXXFLAGS:\s*(.*)', ln)
+        if m:
+            extra += m.group(1).split()
     cmd = ['clang++-14', '-std=c++14', '-O1', '-g', '-fsanitize=address,undefined', '-fno-sanitize-recover=undefined',
            '-I/repo/src', '-I', os.path.join(ROOT, 'replay'), src] + extra + ['-o', exe]
     if exe not in _lib_built:
@@ -128,7 +131,10 @@ def run_native(unit, adapter, inputs):
     if brc != 0:
         return None, 'adapter build failed: ' + bout[-3000:]
     os.environ.setdefault('ASAN_OPTIONS', 'detect_leaks=0')
-    p = subprocess.run([exe] + ['%s=%s' % (k, v) for k, v in inputs.items()], stdout=subprocess.PIPE, stderr=subprocess.STDOUT, text=True, timeout=60)
+    try:
+        p = subprocess.run([exe] + ['%s=%s' % (k, v) for k, v in inputs.items()], stdout=subprocess.PIPE, stderr=subprocess.STDOUT, text=True, timeout=60)
+    except subprocess.TimeoutExpired as e:
+        return True, 'CONFIRMED (non-termination): the real code did not return within 60 s on this input\n' + str((e.stdout or b'')[-500:])
     out = p.stdout
     if 'CONFIRMED' in out or p.returncode not in (0, 3):
         return True, out
